@@ -639,6 +639,20 @@ def _run_batch(ctx, case):
             # batched call agrees with single calls
             singles = [_blist(order.dominates(A[i].copy(), B[i].copy()))[0] for i in range(n)]
             checks.append(("single calls row by row", singles, exp))
+            # a caller building a dominance table keeps every answer and reads them after the last call: an
+            # answer must not change because the same order / cone was asked something else afterwards
+            held = [order.dominates(A[i].copy(), B[i].copy()) for i in range(n)]
+            held_in = [cone.is_inside(D[i].copy()) for i in range(n)]
+            held_l = [cone.is_inside(D[i].tolist()) for i in range(n)]
+            late = {"dominates(a, b)": [_blist(h)[0] for h in held], "is_inside(1-D array)": [_blist(h)[0] for h in held_in],
+                    "is_inside(list)": [_blist(h)[0] for h in held_l]}
+            for what_l, vals in late.items():
+                if vals != exp and singles == exp:
+                    ctx.violation("answer-changes-after-later-call", f"{what_l}: the answers of {n} single-vector calls, "
+                                  "kept by the caller and read after the last call, are no longer the facet-inequality "
+                                  "verdicts they were when returned (a later call on the same order overwrote them)",
+                                  case, detail={"call": what_l, "read_late": vals, "model": exp})
+                    break
     except RuntimeError:
         raise
     except Exception as e:
